@@ -243,7 +243,21 @@ def seq_slice(ex, seq: VSeq, sl: VSlice):
     return VSeq(ln, lambda i: seq.get(lo + i), term, seq.kind)
 
 
+def make_key(parts, sep="."):
+    """Structured string: the concatenation of components that contain no separator."""
+    out = []
+    for i, p in enumerate(parts):
+        if i:
+            out.append(sep)
+        out.append(p.v)
+    v = VStr(concat_str(out))
+    v.parts, v.sep = list(parts), sep
+    return v
+
+
 def str_getitem(ex, s: VStr, idx):
+    if isinstance(idx, VSlice) and isinstance(idx.lo, VNone) and isinstance(idx.step, VNone) and getattr(idx.hi, "cut", None) is not None and idx.hi.cut[0] is s:
+        return make_key(s.parts[:idx.hi.cut[1]], getattr(s, "sep", "."))
     if isinstance(idx, VSlice):
         lo = None if isinstance(idx.lo, VNone) else int_of(idx.lo)
         hi = None if isinstance(idx.hi, VNone) else int_of(idx.hi)
@@ -994,6 +1008,9 @@ def _sconc(*vs):
 
 @libfn("str.split")
 def _split(ex, self_val, args, kwargs, fr):
+    parts = getattr(self_val, "parts", None)
+    if parts is not None and args and _sconc(args[0]) and args[0].v == getattr(self_val, "sep", "."):
+        return ex.st.alloc(HList(list(parts)))
     if _sconc(self_val, *args):
         return ex.st.alloc(HList([VStr(p) for p in self_val.v.split(*[a.v for a in args])]))
     h = ex.cfg.lib_overrides.get(("str.split_sym",))
@@ -1035,6 +1052,17 @@ def _endswith(ex, self_val, args, kwargs, fr):
 
 @libfn("str.find")
 def _find(ex, self_val, args, kwargs, fr):
+    parts = getattr(self_val, "parts", None)
+    if parts is not None and _sconc(args[0]) and args[0].v.startswith(".") and "." not in args[0].v[1:]:
+        # structured key c1.c2...cn (components contain no dot): position of ".<name>" is a component boundary
+        name = args[0].v[1:]
+        for k in range(1, len(parts)):
+            c = ex.eq(parts[k], VStr(name))
+            if ex.st.branch(c):
+                r = VInt(z3.Length(z_str(make_key(parts[:k]).v)) if not all(is_conc(p.v) for p in parts[:k]) else len(".".join(p.v for p in parts[:k])))
+                r.cut = (self_val, k)
+                return r
+        return VInt(-1)
     if _sconc(self_val, args[0]):
         return VInt(self_val.v.find(args[0].v))
     return VInt(z3.IndexOf(z_str(self_val.v), z_str(args[0].v), 0))
